@@ -21,7 +21,7 @@ RULE = ('Model-based histories over 1..3 filterbank objects: Hypothesis draws (n
         'cached chunks on one stream, or complex input.')
 ASSUMPTIONS = ['chunks are whole multiples of num_taps*num_branches samples (the property\'s admissible sizes)',
                'reference DFT by explicit matrix product in complex128', 'comparison tolerance 1e-10 relative to the largest reference magnitude']
-REQUIRED_CLASSES = ['cache_keyword_omitted', 'non_contiguous_input', 'readonly_input', 'dtype=real', 'dtype=complex', 'dtype=int', 'chunks>=2', 'objects>=2', 'uncached_interleaved',
+REQUIRED_CLASSES = ['caller_overwrites_chunk_buffer', 'cache_keyword_omitted', 'non_contiguous_input', 'readonly_input', 'dtype=real', 'dtype=complex', 'dtype=int', 'chunks>=2', 'objects>=2', 'uncached_interleaved',
                     'odd_branches', 'enumerated', 'long_call', 'huge_call', 'forked_object']
 
 WINDOWS = ['hamming', 'hann', 'boxcar', 'blackman']
@@ -222,11 +222,16 @@ def run_case(case, ctx):
                 want = full[emitted[k]:]
                 emitted[k] = len(full)
                 chunks[k] += 1
+                passed = lay(x, layout)
                 if f['cache'] == 'default':
                     obs.cls('cache_keyword_omitted')
-                    ok, got = core.call(obs, 'channelize', pfb.channelize, lay(x, layout))
+                    ok, got = core.call(obs, 'channelize', pfb.channelize, passed)
                 else:
-                    ok, got = core.call(obs, 'channelize', pfb.channelize, lay(x, layout), cache=True)
+                    ok, got = core.call(obs, 'channelize', pfb.channelize, passed, cache=True)
+                if passed.flags.writeable:
+                    # the chunk buffer belongs to the caller, who refills it for the next read
+                    passed[...] = 77
+                    obs.cls('caller_overwrites_chunk_buffer')
                 if ok:
                     good, why = close(got, want, scale=max(float(np.max(np.abs(full))) if full.size else 1.0, 1e-300))
                     if not good:
